@@ -4,6 +4,15 @@ From VF Require Import Nfs40.Model.
 From Coq Require Import Lia.
 Open Scope N_scope.
 
+Lemma should_complete_list_lemma : forall st,
+  should_complete st = false <->
+  In st [ERR_STALE_CLIENTID; ERR_STALE_STATEID; ERR_BAD_STATEID; ERR_BAD_SEQID;
+         ERR_BADXDR; ERR_RESOURCE; ERR_NOFILEHANDLE; ERR_MOVED].
+Proof.
+  intro st. unfold should_complete. rewrite Bool.negb_false_iff. repeat rewrite Bool.orb_true_iff.
+  repeat rewrite N.eqb_eq. simpl. intuition congruence.
+Qed.
+
 (* ---- tables --------------------------------------------------------------- *)
 Lemma find_by_upd_by : forall {A} (p : A -> bool) (f : A -> A) (l : list A),
   (forall x, p x = true -> p (f x) = true) ->
